@@ -77,7 +77,7 @@ func group(alt []string) string {
 	}
 	parts := make([]string, len(alt))
 	for i, a := range alt {
-		parts[i] = "(?:" + a + ")"
+		parts[i] = "(?:" + closeQuote(a) + ")"
 	}
 	return "(?:" + strings.Join(parts, "|") + ")"
 }
@@ -190,4 +190,29 @@ func FlagPrefix(flags map[rune]bool) string {
 	}
 	sort.Strings(fs)
 	return "(?" + strings.Join(fs, "") + ")"
+}
+
+// closeQuote terminates a `\Q` literal that runs to the end of an entry, so that the group the
+// reference wraps around the entry is not swallowed by it.
+func closeQuote(s string) string {
+	open := false
+	for i := 0; i+1 < len(s); i++ {
+		if s[i] != '\\' {
+			continue
+		}
+		switch {
+		case !open && s[i+1] == 'Q':
+			open = true
+			i++
+		case open && s[i+1] == 'E':
+			open = false
+			i++
+		case !open:
+			i++ // an ordinary escape
+		}
+	}
+	if open {
+		return s + `\E`
+	}
+	return s
 }
